@@ -77,4 +77,6 @@ def run(rep, fb, tier):
     _l3.rule_libc_null(rep, fb)
     __import__("vf.rules.jsonrules", fromlist=["x"]).rule_json_parameters(rep, fb)
     __import__("vf.rules.lints3", fromlist=["x"]).rule_bytemask_normalised(rep, fb)
+    __import__("vf.rules.lints3", fromlist=["x"]).rule_strides_inner_first(rep, fb)
+    __import__("vf.rules.lints3", fromlist=["x"]).rule_union_length_is_tags(rep, fb)
     rep.units = fb.units
